@@ -461,6 +461,13 @@ def run(ctx):
     if rc != 1 or not e1.startswith(fc + ':2:10: error:'):
         ctx.violation('several input files: the diagnostic in the third file is %r (rc=%d), expected %s:2:10: error:' % (e1[:200], rc, os.path.basename(fc)),
                       'int c1;\nint c2 = nowhere;\n', 'c', key='diag:location-second-file')
+    # locations kept across a failed one-token look-ahead, of invalid UTF-8 in a later literal of a concatenation, of the operand of # in a spliced definition
+    for src, want in [('int r;\nvoid f(void) {\n  missing_fn\n  (r);\n}\n', ':3:3: error:'), ('unsigned *m =\n  U"ok"\n  U"fine"\n  U"bad\xff"\n  U"x";\n', ':4:3: error:'),
+                      ('#define SHOW(fmt, val) \\\n  fmt \\\n  # 1\nint x;\n', ':3:5: error:'), ('int a[3];\nint f(void) {\n  return nowhere\n    [1];\n}\n', ':3:10: error:')]:
+        rc, out, e1, p = first_err(src)
+        stats['diag_programs'] += 1
+        if not e1.startswith(p + want):
+            ctx.violation('diagnostic location: %r gives %r, expected %s%s' % (src[:80], e1[:200], os.path.basename(p), want), src, 'c', key='diag:location')
     # regression corpus of fixed defects
     for src, want in [('#line 100\n\nint x = y;\n', ':101:9: error:'), ('# 7 "foo.h" 1\n\n\nint x = y;\n', 'foo.h:9:9: error:'),
                       ('#line 010\nint x = y;\n', ':10:9: error:')]:
